@@ -145,6 +145,7 @@ L:
 					}
 					return
 				}
+				c.handShakeDone()
 				select {
 				case <-n.ctx.Done():
 					return
@@ -292,7 +293,9 @@ func (n *server) handleCallReq(req p2pRequest) (c *client) {
 			n.logger.Error(err)
 		}
 		c = nil
+		return
 	}
+	c.handShakeDone()
 	return
 }
 
